@@ -178,7 +178,13 @@ fn shard_run(sub: &SubCheck, cases: u32, seed: u64, shard: u64) -> (SubStats, Op
     let stats_cell = RefCell::new(&mut stats);
     let f = sub.f;
     let sample_every = (cases / 3).max(1) as u64;
+    // optional crash localisation (sanitizer runs): the tape of the case about to run is written
+    // to <dir>/<subcheck>-<shard>.json, so an abort can be attributed to a case
+    let case_log = std::env::var_os("VERIF_CASE_LOG_DIR").map(|d| std::path::PathBuf::from(d).join(format!("{}-{shard}.json", sub.name)));
     let result = runner.run(&vec(any::<u32>(), sub.tape_len), |tape| {
+        if let Some(path) = &case_log {
+            let _ = std::fs::write(path, format!("{{\"subcheck\": \"{}\", \"tape\": {:?}}}", sub.name, tape));
+        }
         let counting = !failed.get();
         let want = counting && {
             let s = stats_cell.borrow();
